@@ -234,6 +234,46 @@ in_order(ws, ["let mut has_new_frame = !stack.frames.is_empty();", "while has_ne
          "walk_stack (order of the loop body)")
 
 
+# ---- 9. process_state.rs BitFlipDetails::confidence: the NEARBY_REGISTER table and the expression that indexes it
+psrc = src("minidump-processor/src/process_state.rs")
+m = re.search(r"pub const NEARBY_REGISTER: \[f32; (\d+)\] = \[([^\]]*)\];", psrc)
+if not m:
+    die("confidence::NEARBY_REGISTER table not found")
+nearby_len = int(m.group(1))
+if len([x for x in m.group(2).split(",") if x.strip()]) != nearby_len:
+    die("confidence::NEARBY_REGISTER: initialiser length differs from the declared length")
+m = re.search(r"if self\.nearby_registers > 0 \{ let nearby = (.+?); values\.push\(NEARBY_REGISTER\[nearby\]\); \}", ps)
+if not m:
+    die("BitFlipDetails::confidence: `if self.nearby_registers > 0 { let nearby = <expr>; values.push(NEARBY_REGISTER[nearby]); }` not found")
+nearby_src = m.group(1)
+N, L = r"self\.nearby_registers as usize", r"NEARBY_REGISTER\.len\(\)"
+FORMS = [
+    # min(n, len) - 1
+    (r"std::cmp::min\(%s, %s\) - 1" % (N, L), "chk_sub p 64 302 (Z.min n len) 1"),
+    (r"\(%s\)\.min\(%s\) - 1" % (N, L), "chk_sub p 64 302 (Z.min n len) 1"),
+    # min(n - 1, len - 1)
+    (r"std::cmp::min\(%s - 1, %s - 1\)" % (N, L), "do a <- chk_sub p 64 302 n 1; do b <- chk_sub p 64 302 len 1; Ret (Z.min a b)"),
+    (r"\(%s - 1\)\.min\(%s - 1\)" % (N, L), "do a <- chk_sub p 64 302 n 1; do b <- chk_sub p 64 302 len 1; Ret (Z.min a b)"),
+    # min(n - 1, len)
+    (r"\(%s - 1\)\.min\(%s\)" % (N, L), "do a <- chk_sub p 64 302 n 1; Ret (Z.min a len)"),
+    (r"std::cmp::min\(%s - 1, %s\)" % (N, L), "do a <- chk_sub p 64 302 n 1; Ret (Z.min a len)"),
+    # min(n, len)
+    (r"std::cmp::min\(%s, %s\)" % (N, L), "Ret (Z.min n len)"),
+    (r"\(%s\)\.min\(%s\)" % (N, L), "Ret (Z.min n len)"),
+]
+nearby_gallina = None
+for rx, g in FORMS:
+    if re.fullmatch(rx, nearby_src):
+        nearby_gallina = g
+        break
+if nearby_gallina is None:
+    die("BitFlipDetails::confidence: unrecognised index expression `%s` (the model nearby_index must be re-read against it)" % nearby_src)
+for need in ("const NEARBY_REGISTER_DISTANCE: u64 = 1 << 12;", "const LOW_ADDRESS_CUTOFF: u64 = NEARBY_REGISTER_DISTANCE * 2;",
+             "let should_calculate_nearby_registers = self.address.0 > LOW_ADDRESS_CUTOFF;",
+             "if should_calculate_nearby_registers && self.address.0.abs_diff(addr) <= NEARBY_REGISTER_DISTANCE { self.details.nearby_registers += 1; }"):
+    if need not in ps:
+        die("calculate_heuristics changed shape, expected: " + need)
+
 ALL = ["CpuX86", "CpuAmd64", "CpuArm", "CpuArm64", "CpuArm64Old", "CpuMips", "CpuPpc", "CpuPpc64", "CpuSparc", "CpuUnknown"]
 out = """(* GENERATED by translate/c03_sites.py from minidump-unwind/src/lib.rs, minidump-processor/src/{op_analysis,processor,process_state}.rs,
    minidump/src/minidump.rs, breakpad-symbols/src/sym_file/{mod,types}.rs — do not edit.
@@ -241,7 +281,7 @@ out = """(* GENERATED by translate/c03_sites.py from minidump-unwind/src/lib.rs,
    the implicit stack accesses, memory_range / from_regions / memory_at_address, check_for_guard_pages, LinuxProcLimits::from,
    fill_symbol's inline-level loop and get_inlinee_at_depth's depth test; (round 5) the order of the steps of both passes of
    into_process_state, MinidumpThread::stack_memory, MinidumpMemory::read's empty-descriptor test, walk_stack's prologue and loop-body order. *)
-From Coq Require Import ZArith List. Import ListNotations. Open Scope Z_scope.
+From Coq Require Import ZArith List. From RM Require Import Base.Word. Import ListNotations. Open Scope Z_scope.
 (* the context variants with a `=> <arch>::get_caller_frame(ctx, args).await` arm, in source order; everything else is `_ => None` *)
 Inductive gen_cpu := %s.
 Definition gen_unwinder_arms : list gen_cpu := [%s].
@@ -257,8 +297,12 @@ Definition gen_selected_context {A : Type} (exception_context thread_context : o
 Definition gen_stack_fallback {A : Type} (by_stack_ptr stack_memory : option A) : option A := gen_or %s %s.
 (* contains_stack_ptr = stack_memory.get_memory_at_address::<u%d>(stack_ptr).is_some(): size of the probe in bytes *)
 Definition gen_stack_probe_bytes : Z := %d.
+(* BitFlipDetails::confidence (round 5): `let nearby = %s;` then NEARBY_REGISTER[nearby]; n = self.nearby_registers as usize,
+   len = NEARBY_REGISTER.len(); usize `-` is chk_sub (traps in a debug build, wraps in release) *)
+Definition gen_nearby_table_len : Z := %d.
+Definition gen_nearby_index (p : profile) (n len : Z) : outcome Z := %s.
 """ % (" | ".join("G" + c for c in ALL), "; ".join("G" + c for c in unwinders), guard_max, inline_start,
-       want_a, want_b, want_a, want_b, ctx_a, ctx_b, ctx_a, ctx_b, fb_a, fb_b, fb_a, fb_b, probe_bytes * 8, probe_bytes)
+       want_a, want_b, want_a, want_b, ctx_a, ctx_b, ctx_a, ctx_b, fb_a, fb_b, fb_a, fb_b, probe_bytes * 8, probe_bytes, nearby_src, nearby_len, nearby_gallina)
 os.makedirs(outdir, exist_ok=True)
 path = os.path.join(outdir, "C03Sites.v")
 old = open(path).read() if os.path.exists(path) else None
